@@ -30,6 +30,8 @@ macro_rules! dispatch {
             "C08" => $f::<props::c08::C08>($($args),*),
             "C09" => $f::<props::c09::C09>($($args),*),
             "C10" => $f::<props::c10::C10>($($args),*),
+            "C11" => $f::<props::c11::C11>($($args),*),
+            "C12" => $f::<props::c12::C12>($($args),*),
             "C16" => $f::<props::c16::C16>($($args),*),
             "C18" => $f::<props::c18::C18>($($args),*),
             "C19" => $f::<props::c19::C19>($($args),*),
